@@ -268,7 +268,7 @@ def corrupt_value(value, rng, spec):
     elif isinstance(cur, str):
         node["f"][name] = cur + "x" * rng.choice([1, 300, 70000])
     elif isinstance(cur, list):
-        node["f"][name] = cur + cur[:1] * 3 if cur else [None]
+        node["f"][name] = (cur[:-1] if rng.random() < 0.4 else cur + cur[:1] * 3) if cur else [None]
     elif isinstance(cur, dict) and "enum" in cur:
         node["f"][name] = {"enum": cur["enum"], "v": 253 ** 4 + 5}
     elif isinstance(cur, dict) and "f" in cur:
